@@ -1,6 +1,7 @@
 """Compiles nodes from the parser into Python code."""
 
 import typing as t
+import unicodedata
 from contextlib import contextmanager
 from functools import update_wrapper
 from io import StringIO
@@ -903,9 +904,25 @@ class CodeGenerator(NodeVisitor):
         have_extends = node.find(nodes.Extends) is not None
 
         # find all blocks
+        normalized_names: dict[str, str] = {}
+
         for block in node.find_all(nodes.Block):
             if block.name in self.blocks:
                 self.fail(f"block {block.name!r} defined twice", block.lineno)
+
+            # Python normalizes identifiers (NFKC): two block names with the
+            # same normal form would become one render function.
+            normalized = unicodedata.normalize("NFKC", block.name)
+
+            if normalized in normalized_names:
+                self.fail(
+                    f"block {block.name!r} and block"
+                    f" {normalized_names[normalized]!r} have the same"
+                    " normalized name",
+                    block.lineno,
+                )
+
+            normalized_names[normalized] = block.name
             self.blocks[block.name] = block
 
         # find all imports and import them
